@@ -29,6 +29,8 @@ structure NC (f : Nat) : Prop where
     Safe (PostG u ms) (structInit1 f ms toks init)
   structInit2 : ∀ u ms toks init mem first, msOK ms = true → aggOK u ms init → toksOK toks = true →
     Safe (PostG u ms) (structInit2 f ms toks init mem first)
+  unionRest : ∀ ms toks init, msOK ms = true → unOK ms init → toksOK toks = true →
+    Safe (PostU ms) (unionRest f ms toks init)
   unionInit : ∀ ms toks init, msOK ms = true → unOK ms init → toksOK toks = true →
     Safe (PostU ms) (unionInit f ms toks init)
   initializer2 : ∀ ty toks init, tyOK ty = true → shape ty init = true → toksOK toks = true →
@@ -45,6 +47,7 @@ theorem nc_zero : NC 0 where
   structInit1Loop := fun _ _ _ _ _ _ _ _ _ => Safe.fuel
   structInit1 := fun _ _ _ _ _ _ _ => Safe.fuel
   structInit2 := fun _ _ _ _ _ _ _ _ _ => Safe.fuel
+  unionRest := fun _ _ _ _ _ _ => Safe.fuel
   unionInit := fun _ _ _ _ _ _ => Safe.fuel
   initializer2 := fun _ _ _ _ _ _ => Safe.fuel
 
@@ -436,6 +439,44 @@ theorem closeBrace_safe {α : Type} (Q : α × List ITok → Prop) (v : α) (tok
   intro rest hrest
   exact Safe.pure (hq rest hrest)
 
+/-- `union_rest`: the loop over the remaining initializers of a union's list -/
+theorem unionRest_succ (f : Nat) (ih : NC f) (ms : Members) (toks : List ITok) (init : Init) (hms : msOK ms = true)
+    (hinit : unOK ms init) (htoks : toksOK toks = true) :
+    Safe (PostU ms) (unionRest (f + 1) ms toks init) := by
+  simp only [unionRest]
+  split
+  · rename_i rest hce
+    exact Safe.ok ⟨hinit, consumeEnd_ok toks rest htoks hce⟩
+  · refine Safe.bind (skipTok_safe _ _ _ htoks) ?_
+    intro toks1 htoks1
+    split
+    · rename_i name r
+      refine Safe.bind (structDesignator_safe name ms 0) ?_
+      intro x hx
+      obtain ⟨mi0, t0, hk0⟩ := get_of_lt ms x.1 (by omega)
+      refine Safe.bind (Safe.of_eq (memTy_of_get hk0)) ?_
+      rintro _ rfl
+      have hinit1 : unOK ms (if init.mem? = some x.1 then init else init.setChild x.1 (newInit t0 false)) := by
+        split
+        · exact hinit
+        · exact unOK_setChild hinit x.1 mi0 t0 _ hk0 (newInit_shape t0 false (msOK_get ms x.1 mi0 t0 hms hk0))
+      have hinit' := unOK_setMem hinit1 x.1
+      obtain ⟨mi, t, c, hk', hm, hg, hsc, hty⟩ := member_at hms (unOK_children hinit') (k := x.1) (by omega)
+      rw [hk0] at hk'
+      cases hk'
+      have htok : toksOK (if x.snd = true then (.dot name :: r) else r) = true := by
+        split
+        · exact htoks1
+        · exact toksOK_tail htoks1
+      refine Safe.bind (Safe.of_eq hg) ?_
+      rintro _ rfl
+      refine Safe.bind (ih.designation _ _ c hty hsc htok) ?_
+      intro r1 hr1
+      exact ih.unionRest ms r1.2 _ hms (unOK_setChild hinit' x.1 mi0 t0 r1.1 hk0 hr1.1) hr1.2
+    · refine Safe.bind (skipExcess_safe f toks1 htoks1) ?_
+      intro toks2 htoks2
+      exact ih.unionRest ms toks2 init hms hinit htoks2
+
 theorem unionInit_succ (f : Nat) (ih : NC f) (ms : Members) (toks : List ITok) (init : Init) (hms : msOK ms = true)
     (hinit : unOK ms init) (htoks : toksOK toks = true) :
     Safe (PostU ms) (unionInit (f + 1) ms toks init) := by
@@ -456,7 +497,7 @@ theorem unionInit_succ (f : Nat) (ih : NC f) (ms : Members) (toks : List ITok) (
     rintro _ rfl
     refine Safe.bind (ih.designation t _ c hty hsc htok) ?_
     intro r1 hr1
-    exact closeBrace_safe (PostU ms) _ r1.2 hr1.2 (fun rest hrest => ⟨unOK_setChild hinit' x.1 mi t r1.1 hk' hr1.1, hrest⟩)
+    exact ih.unionRest ms r1.2 _ hms (unOK_setChild hinit' x.1 mi t r1.1 hk' hr1.1) hr1.2
   · apply Safe.ite
     · intro _
       apply Safe.ite
@@ -478,7 +519,7 @@ theorem unionInit_succ (f : Nat) (ih : NC f) (ms : Members) (toks : List ITok) (
         rintro _ rfl
         refine Safe.bind (ih.initializer2 t r c hty hsc (toksOK_tail htoks)) ?_
         intro r1 hr1
-        exact closeBrace_safe (PostU ms) _ r1.2 hr1.2 (fun rest hrest => ⟨unOK_setChild hinit' _ mi t r1.1 hk' hr1.1, hrest⟩)
+        exact ih.unionRest ms r1.2 _ hms (unOK_setChild hinit' _ mi t r1.1 hk' hr1.1) hr1.2
       · refine Safe.bind (Safe.of_eq hm) ?_
         rintro _ rfl
         refine Safe.bind (Safe.of_eq hg) ?_
@@ -722,6 +763,7 @@ theorem nc_succ (f : Nat) (ih : NC f) : NC (f + 1) where
   structInit1Loop := structInit1Loop_succ f ih
   structInit1 := structInit1_succ f ih
   structInit2 := structInit2_succ f ih
+  unionRest := unionRest_succ f ih
   unionInit := unionInit_succ f ih
   initializer2 := initializer2_succ f ih
 
